@@ -834,7 +834,9 @@ func c16ProducerOK(r *Run, fn *ssa.Function, good, pending map[*ssa.Function]boo
 				}
 			case *ssa.Const:
 				if x.IsNil() {
-					return false, fmt.Sprintf("returns a nil Result at %s", r.Prog.Pos(instrPos(rt)))
+					// allowed only if every path returning nil is infeasible (exhaustive role dispatch), checked below
+					dispatchNil = append(dispatchNil, rt)
+					return true, ""
 				}
 			}
 			return false, "returned value " + v.Name() + " is not a local Result allocation or the result of a checked strategy function"
@@ -2579,6 +2581,17 @@ func (rv *c16Resolver) resolve(fn *ssa.Function, site ssa.Instruction, root ssa.
 			}
 		}
 	case *ssa.Alloc:
+		// the cell of a pointer variable that is assigned exactly once (a parameter captured by a closure, a local alias)
+		if pt, ok := x.Type().(*types.Pointer); ok {
+			if _, isPtr := pt.Elem().Underlying().(*types.Pointer); isPtr {
+				if v0 := dCellValue(x); v0 != nil {
+					r2, p2 := accessPath(v0)
+					if r2 != root {
+						return rv.resolve(fn, site, r2, append(append([]string{}, p2...), path...), nil, depth+1, trail)
+					}
+				}
+			}
+		}
 		// a local struct whose field was assigned from another object
 		if len(path) > 0 {
 			if sv := c16AllocFieldStore(x, path[:1]); sv != nil {
